@@ -371,15 +371,24 @@ fn expand(line: &Value) -> Vec<Value> {
     })).collect()
 }
 
-fn run_demux(lines: &[Value], out: &mut NdjsonOut, shard: (usize, usize), hash_path: &str) {
+fn run_demux(path: &str, out: &mut NdjsonOut, shard: (usize, usize), hash_path: &str) {
     let rt = tokio::runtime::Builder::new_current_thread().enable_all().build().unwrap();
     let mut rng = Rng::from_env();
     let (mut n, mut steps, mut panics, mut drift, mut unreg, mut deliveries) = (0u64, 0u64, 0u64, 0u64, 0u64, 0u64);
     let mut nlines = 0u64;
-    let edges: Vec<Value> = lines.iter().enumerate().filter(|(i, _)| i % shard.1 == shard.0)
-        .flat_map(|(_, l)| { nlines += 1; expand(l) }).collect();
     let mut hashes: Vec<u8> = Vec::new();
-    for (idx, e) in edges.iter().enumerate() {
+    // streamed: one generated line (an edge, or a probe line standing for 24 edges) at a time
+    use std::io::BufRead;
+    let f = std::fs::File::open(path).unwrap_or_else(|e| panic!("open {path}: {e}"));
+    let mut idx = 0usize;
+    for (li_no, l) in std::io::BufReader::new(f).lines().map(|l| l.expect("read line")).filter(|l| !l.trim().is_empty()).enumerate() {
+        if li_no % shard.1 != shard.0 {
+            continue;
+        }
+        let line: Value = serde_json::from_str(&l).unwrap_or_else(|e| panic!("{path}:{}: bad json: {e}", li_no + 1));
+        nlines += 1;
+        for e in expand(&line).iter() {
+        idx += 1;
         n += 1;
         // non-trivial = the packet meets at least one registration (a branch of the chain fires, a closed
         // listener is hit, or some route claims the payload type); identity = (cfg, history, packet)
@@ -468,6 +477,7 @@ fn run_demux(lines: &[Value], out: &mut NdjsonOut, shard: (usize, usize), hash_p
                     }
                 }
             }
+        }
         }
     }
     std::fs::write(hash_path, &hashes).expect("write hashes");
@@ -753,6 +763,13 @@ fn main() {
         let (a, b) = s.split_once('/').expect("shard i/n");
         (a.parse().unwrap(), b.parse().unwrap())
     }).unwrap_or((0usize, 1usize));
+    if args[1] == "demux" {
+        let mut out = NdjsonOut::create(&args[3]);
+        quiet_panics();
+        run_demux(&args[2], &mut out, shard, &format!("{}.hashes", args[3]));
+        out.finish();
+        return;
+    }
     // only this shard's lines are parsed (the others become Null and are skipped by index)
     let rows: Vec<Value> = {
         use std::io::BufRead;
@@ -773,10 +790,6 @@ fn main() {
     };
     let mut out = NdjsonOut::create(&args[3]);
     match args[1].as_str() {
-        "demux" => {
-            quiet_panics();
-            run_demux(&rows, &mut out, shard, &format!("{}.hashes", args[3]))
-        }
         "bridge" => run_bridge(&rows, &mut out, shard, &format!("{}.hashes", args[3])),
         x => panic!("unknown mode {x}"),
     }
